@@ -178,7 +178,7 @@ def det_of(k):
     return "DSemgrep" if SNIPPETS.get(k, ("none",))[0] == "semgrep" else "DNone"
 
 
-LIFT_THEOREMS = ["C03_unchanged", "C01_lift", "C02_lift", "C07_lift"]
+LIFT_THEOREMS = ["C03_unchanged", "C01_lift", "C02_lift", "C07_quiet_run", "C07_lift"]
 
 
 def audit_lifts(ctx):
